@@ -49,5 +49,5 @@ VARIANTS += [
 ]
 
 VARIANTS += [
-    M('C14', 'size-parameters-fall-back-when-falsy', E(RX, "                    self.__dict__[k] = v\n", "                    self.__dict__[k] = v or self.__dict__[k]\n"), rule='C14-SIZE', key='use_sampling=False'),
+    M('C14', 'size-parameters-fall-back-when-falsy', E(RX, "                    self.__dict__[k] = v\n", "                    self.__dict__[k] = v or self.__dict__[k]\n"), rule='C14-SIZE', key='do_all_exceptions=0'),
 ]
